@@ -255,3 +255,17 @@ def genseq(sx, B):
              lambda: "%r expected %r" % (sorted(map(sorted, gote)), sorted(map(sorted, edges))))
     sx.claim(all(m.nodes[k].get("chiral") == tagged.get(k) for k in m.nodes), "labels on exactly the tagged block",
              lambda: "%r" % {k: m.nodes[k].get("chiral") for k in m.nodes})
+
+
+
+@condition("C12.plain_strings", engine="crosshair",
+           anchors=["polyply.src.simple_seq_parsers:_parse_plain"],
+           must_cover=["plain_dna"],
+           cfg={"module": "chx/c12_plain.py", "functions": {"quick": ["plain_dna"], "thorough": ["plain_dna", "plain_protein"]},
+                "timeout": {"quick": 120, "thorough": 400}},
+           outside=["sequences longer than 3 (DNA) / 2 (protein) characters", "leading/trailing white space (stripped by the reader)"],
+           bounds={"quick": dict(dna_len=3), "thorough": dict(dna_len=3, protein_len=2)})
+def plain_strings(sx, B):
+    """Engine B (CrossHair, z3 string theory): real _parse_plain on a one-letter sequence of arbitrary characters: sequences over
+    the alphabet give exactly the translated names (with 5'/3' suffixes), resids and linear edges; any other character is rejected."""
+    raise NotImplementedError("run by pverif.chx")
